@@ -294,7 +294,8 @@ def requests(case):
         sep2, segs2 = peer
         lw2 = list_wire(segs2)
         out += ["(render %s %s)" % (sep2, lw2), "(wfc %s %s)" % (sep2, lw2), "(nodot %s)" % lw2,
-                "(yprog %s ((eq %s)))" % (h, hexs(render(sep2, segs2)))]
+                "(yprog %s ((eq %s)))" % (h, hexs(render(sep2, segs2))),
+                "(yprog %s ((strip %s) orig str (add s6b5c2e) (strip s2f) (strip %s)))" % (h, hexs(render(sep2, segs2[:1])), h)]
     if tail is not None:
         out += ["(body %s %s)" % (sep, sseg_wire(tail)), "(wfc %s %s)" % (sep, list_wire(tuple(segs) + (tail,))),
                 "(yprog %s (esc (append %s) orig esc pop orig esc))" % (h, hexs(body(SEPC[sep], tail)))]
@@ -412,7 +413,9 @@ def observe(case):
     if peer is not None:
         sep2, segs2 = peer
         T2 = render(sep2, segs2)
-        out += [hexs(T2), tf(wfc(sep2, segs2)), tf(nodot(segs2)), yprog_obs(T, [("eq", T2)])]
+        out += [hexs(T2), tf(wfc(sep2, segs2)), tf(nodot(segs2)), yprog_obs(T, [("eq", T2)]),
+                yprog_obs(T, [("strip", render(sep2, segs2[:1])), ("orig",), ("str",), ("add", "k\\."), ("strip", "/"),
+                              ("strip", T)])]
     if tail is not None:
         B = body(SEPC[sep], tail)
         out += [hexs(B), tf(wfc(sep, tuple(segs) + (tail,))),
@@ -481,7 +484,7 @@ def judge(case, obs):
             got = obs[i + 3]
             if got != "((ok %s))" % tf(same):
                 return "%r == %r gives %s but the segments are %s" % (T, T2, got, "equal" if same else "different")
-        i += 4
+        i += 5
     if tail is not None:
         whole = tuple(segs) + (tail,)
         if wfc(sep, whole, f21=False) and wfc(sep, segs, f21=False) and not excluded(sep, T) and T != "":
